@@ -1256,7 +1256,7 @@ class QueryBuilder(Selectable, Term):  # type:ignore[misc]
         self._for_update_skip_locked = skip_locked
         self._for_update_nowait = nowait
         # keep call order (without duplicates): a set would render in hash order, which differs between processes
-        self._for_update_of = list(dict.fromkeys(of))
+        self._for_update_of = list(dict.fromkeys(_in_stable_order(of)))
 
     @builder
     def do_nothing(self) -> "Self":  # type:ignore[return]
@@ -1334,7 +1334,9 @@ class QueryBuilder(Selectable, Term):  # type:ignore[misc]
             raise AttributeError("'Query' object has no attribute '%s'" % "rollup")
 
         terms = [  # type:ignore[assignment]
-            Tuple(*_in_stable_order(term)) if isinstance(term, (list, tuple, set)) else term
+            Tuple(*_in_stable_order(term))
+            if isinstance(term, (list, tuple, set, frozenset))
+            else term
             for term in terms
         ]
 
@@ -1627,7 +1629,7 @@ class QueryBuilder(Selectable, Term):  # type:ignore[misc]
         Handy function for INSERT and REPLACE statements in order to check if
         terms are introduced and how append them to `self._values`
         """
-        if not isinstance(terms[0], (list, tuple, set)):
+        if not isinstance(terms[0], (list, tuple, set, frozenset)):
             terms = [terms]  # type:ignore[assignment]
 
         for values in terms:
